@@ -3,14 +3,62 @@
     Model: coq/W/Waker.v (PipedThread::spawn/send/drop, PipedLink::send/recv/cancel, the worker's exit
     path with panic capture, the wake handler; mutex + condvar as SC lock + wait set, check-and-wait atomic).
     The executable monitor [C14_ok] (coq/W/Monitors.v) states the full property on traces and is
-    evaluated on the REAL traces by the check.  Proved here so far (see docs/layer_w.md): the wake-up side. *)
+    evaluated on the REAL traces by the check.  Proved here, for every script, number of threads/pipes and
+    schedule (invariants [RvInv], [PqInv] of coq/W/Pipe.v): a blocked recv is never left sleeping, no reply is
+    stranded, the reply wake-up reaches the pipe's own live handler.  See docs/layer_w.md for what is missing. *)
 From Coq Require Import ZArith List Bool.
-From Stk Require Import Lib.U Gen.SrcWaker W.Waker W.WakerCore W.WakerRefine W.WakerProofs W.WakerGhost.
+From Stk Require Import Lib.U Gen.SrcWaker W.Waker W.WakerCore W.WakerRefine W.WakerProofs W.WakerGhost W.Pipe.
 Import ListNotations.
 Local Open Scope Z_scope.
 
-(* FULL STATEMENT (not yet closed):
-   forall scr sched, C14_ok (flatten (wtrace scr sched)) false = true *)
+(* FULL STATEMENT (trace form, not closed):
+   forall scr sched, C14_ok (flatten (wtrace scr sched)) false = true
+   (exactly-once in-order traffic both ways; fwd_term exactly once, after all messages, with the panic flag;
+   results of recv/send/cancel after the drop).  Both queues are FIFO lists appended and taken under the mutex;
+   what is proved below is that neither side can be left waiting. *)
+
+(** A blocked [recv] always wakes for a new message or for cancellation: a worker that waits on the condition
+    variable of pipe [p] and has not been notified has nothing to receive and is not cancelled - unless a
+    [notify] for [p] is about to be executed by some thread. *)
+Theorem C14_recv_not_lost : forall st t p r0,
+  reachable st -> tcont (thr st t) = ICvReacq p :: r0 -> twaiting (thr st t) = true ->
+  (forall u, ~ In (INotify p) (tcont (thr st u))) ->
+  psendq (pps st p) = [] /\ pcancel (pps st p) = false.
+Proof. exact recv_not_lost. Qed.
+Print Assumptions C14_recv_not_lost.
+
+(** The decision to wait is taken under the mutex with nothing available, and the mutex is still held when the
+    wait starts (check-and-wait is atomic with respect to [PipedThread::send] and the drop). *)
+Theorem C14_recv_wait_decided : forall st t p r0,
+  reachable st -> tcont (thr st t) = ICvWait p :: r0 ->
+  psendq (pps st p) = [] /\ pcancel (pps st p) = false /\ owner st (MPq p) = Some t.
+Proof. exact recv_wait_decided. Qed.
+Print Assumptions C14_recv_wait_decided.
+
+(** A non-empty reply queue always has a wake-up owed to the pipe's handler, or the worker is on its way to the
+    leaf [fetch_or] of the pipe's slot. *)
+Theorem C14_reply_queue_owed : forall st p,
+  reachable st -> precvq (pps st p) <> [] ->
+  owed st (HPipe p) \/ exists t bm a b, In (IClimb (KLeaf bm a b (Some (HPipe p)))) (tcont (thr st t)).
+Proof. exact reply_queue_owed. Qed.
+Print Assumptions C14_reply_queue_owed.
+
+(** No reply is stranded: in a quiescent state in which no thread has a wake of pipe [p] left to do, every reply
+    pushed with [PipedLink::send] has been taken by the pipe's handler (which forwards it to fwd_recv). *)
+Theorem C14_replies_not_stranded : forall st p,
+  reachable st -> quiescent st ->
+  (forall t bm a b, ~ In (IClimb (KLeaf bm a b (Some (HPipe p)))) (tcont (thr st t))) ->
+  precvq (pps st p) = [].
+Proof. exact replies_not_stranded. Qed.
+Print Assumptions C14_replies_not_stranded.
+
+(** The wake of a reply is aimed at the pipe's own slot, and that slot still holds the pipe's handler: the worker
+    drops its Waker (= the termination notice) only in its exit sequence, after its last command. *)
+Theorem C14_reply_wake_hits_handler : forall st t bm a b p,
+  reachable st -> In (IClimb (KLeaf bm a b (Some (HPipe p)))) (tcont (thr st t)) ->
+  4096 * bm + 64 * a + b = wbit (pw (pps st p)) /\ slab_get (sl st) (wbit (pw (pps st p))) = Some (HPipe p).
+Proof. exact reply_wake_hits_handler. Qed.
+Print Assumptions C14_reply_wake_hits_handler.
 
 (** No wake-up of a piped thread's handler is stranded (neither the one for a reply pushed on an empty
     queue nor the one of the worker's exit, which is the Waker drop): in every reachable quiescent state
